@@ -32,6 +32,10 @@ CHECKS = {
    technique="bounded-exhaustive enumeration of all small tree pairs x all orders of diff operations up to length 4, with provenance/coverage invariants and byte-identical-input purity after every operation",
    text="Every ordered pair of trees up to N nodes (quick 3, thorough 4) with equal root tag, every tree against permuted copies and copies with 1-2 uniquely tagged leaves inserted (both directions); invariants: provenance by identity and depth, coverage of every input node by an entry holding an Equals node under its parent's entry, two-sided only for Equals nodes, inserted leaves one-sided, deep-equal inputs all two-sided; all 340 operation orders over {String, IsDeepEqual, Sort, Tag} leave both inputs byte-identical.",
    note="Alphabet chosen for the matcher's shortcuts (duplicate siblings, always-equal BIRT, child-dependent RESI/DATE, pointered node). Full operation-order product only on pairs with <=4 (quick) / <=5 (thorough) nodes in total; larger pairs get three representative orders."),
+ "C09": dict(engine="E3", category="exploration", design_ref="§4 C09",
+   technique="bounded-exhaustive enumeration of all small tree pairs and list pairs x merge functions, with Equals-path coverage, marker accounting, identity-disjointness and every single mutation of the result",
+   text="MergeNodes on every ordered pair of trees up to 3 nodes (equal root tags; error paths for different tags and nil) and MergeNodeSlices on every ordered pair of lists of 0..3 marker-carrying elements under {equality, always, never} merge functions: nothing lost (Equals path for every input node), nothing invented, documented length bounds, each element merged at most once, self-merge adds nothing, result shares no node with the inputs, inputs byte-identical after the merge and after every single AddNode/DeleteNode/SetNodes(nil) on the result.",
+   note="The two roots of MergeNodes (and of elements merged by the merge function) are identified with the merged root, since the API merges the children of two same-tag nodes. Quick tier skips list pairs with 6 elements in total."),
  "C05": dict(engine="E3", category="exploration", design_ref="§4 C05",
    technique="bounded-exhaustive enumeration of every calendar date against an own calendar reference model",
    text="Every day, month-year and year (quick: three 400-year blocks; thorough: all of 1..9999) is run through the real Date.Time/Years/IsBefore/IsAfter/Duration/Minimum/Maximum and compared with own proleptic-Gregorian arithmetic; exhaustive as the property's quantifier states.",
